@@ -93,6 +93,10 @@ def boundary_class(t):
 
 # ------------------------------------------------------------------------------------------------ generation
 
+TWIN_FAMILIES = ('special_day', 'ago_later', 'rel_weekday', 'rel_week', 'rel_month', 'rel_year', 'now', 'month_day', 'weekday',
+                 'abs_date', 'time', 'date_at_time')
+
+
 def draw_request(dec, prop, t, ctx):
     if prop == 'C08':
         return families.draw_c08(dec)
@@ -166,7 +170,7 @@ def gen_timeline(prop, run_seed, tier, ctx):
             fault = 'aligned'
         req = draw_request(dec, prop, t, ctx)
         mode = 'implicit' if dec.chance('mode', p_implicit) else 'explicit'
-        if twins and req['culture'] == 'en-us' and req['family'] != 'spec' and dec.chance('ctx-twin', 0.25):
+        if twins and req['culture'] == 'en-us' and req['family'] in TWIN_FAMILIES and dec.chance('ctx-twin', 0.25):
             creq = families.context_twin(dec, req)
             events.append({'k': len(events), 't': iso(t), 'adv': 'none', 'mode': 'explicit', 'req': creq, 'fault': None,
                            'clock': iso(clamp(t + timedelta(days=400, microseconds=5))), 'dup': False})
